@@ -113,6 +113,11 @@ def main():
             if why:
                 pk["differ"] += 1
                 res["failures"].append(dict(desc, what=why, compiled=[brief(x) for x in flat(rc)], source=[brief(x) for x in flat(rs)]))
+        except OverflowError as e:
+            # the interpreter refuses to store a Python number that does not fit the integer output (a curve that leaves the
+            # int16 range by edge extrapolation); compiled code wraps - such inputs are outside the domain of every kernel
+            res["out_of_domain"] = res.get("out_of_domain", 0) + 1
+            pk["out_of_domain"] = pk.get("out_of_domain", 0) + 1
         except Exception as e:  # noqa
             pk["errors"] += 1
             res["failures"].append(dict(desc, what="%s: %s" % (type(e).__name__, e), error=True))
